@@ -12,7 +12,8 @@ INCLUDE_FILES = {
     'prefix': {INC + 'f.ra': '##!^ p\nfoo\nbar\n'},
     'suffix': {INC + 'f.ra': '##!$ s\nfoo\nbar\n'},
     'both': {INC + 'f.ra': '##!^ p\n##!$ s\nfoo\nbar\n'},
-    'prefix-trailing-blank': {INC + 'f.ra': '##!^ \\b\nunion\nselect \n'},
+    'prefix-trailing-blank': {INC + 'f.ra': '##!^ p\nunion\nselect \n'},
+    'suffix-trailing-tab': {INC + 'f.ra': '##!$ s\nfoo\nbar\t\n'},
     'own-defs': {INC + 'f.ra': '##!> define d [0-9]\nx{{d}}\ny{{d}}+\n'},
     'nested': {INC + 'f.ra': '##!> include g\nbaz\n', INC + 'g.ra': 'qux\nquux\n'},
     'nested-prefix': {INC + 'f.ra': '##!> include g\nbaz\n', INC + 'g.ra': '##!^ p\nqux\n'},
@@ -35,7 +36,7 @@ CFG = {'anti_evasion': {'unix': '[x]*', 'windows': '[y]*'}, 'anti_evasion_suffix
 def k_block_in_cmdline(p):
     """known: an assemble block (here: an include that carries prefixes/suffixes) nested in a cmdline block gets
     the evasion patterns interleaved into its regex text"""
-    return 'cmdline' in p['tags'] and any(t in p['tags'] for t in ('prefix', 'suffix', 'both', 'prefix-trailing-blank', 'nested-prefix'))
+    return 'cmdline' in p['tags'] and any(t in p['tags'] for t in ('prefix', 'suffix', 'both', 'prefix-trailing-blank', 'suffix-trailing-tab', 'nested-prefix'))
 
 
 def family(tier):
